@@ -1,9 +1,11 @@
 #!/bin/bash
 # Coverage-guided tier of the thorough checks:  fuzz/campaign.sh <Cxx>
-# Builds the libFuzzer targets from /repo's working tree (cargo +nightly fuzz build, ASan, debug
-# assertions), runs fixed-work campaigns (-runs=, -seed= from VERIF_SEED) on all cores from a generated
-# corpus and from an empty one, re-judges every artifact in-process with the property's oracle
-# (dltverif fuzz-triage: attribute, minimise under that oracle, save replay) and patches the evidence file.
+# Builds the libFuzzer targets from the judged tree (cargo +nightly fuzz build, ASan, debug assertions), runs
+# fixed-work campaigns (-runs=, -seed= from VERIF_SEED) on all cores, from a generated corpus and from an empty one,
+# re-judges every artifact in-process with the property's oracle (dltverif fuzz-triage: attribute, minimise under
+# that oracle's signature, save a replay) and merges the campaign statistics into the evidence file.
+#   byte-level targets   bytes (C02 decode, C03, C04, C16), fibex (C12), args (C13)
+#   structured target    strat (C01, C02 encode, C05..C10, C15, C17..C19): input decoded into the property's Case
 # exit 0 nothing confirmed / 1 VIOLATION printed / 2 infrastructure trouble (never a verdict)
 set -u
 PROP="${1:?property id}"
@@ -12,81 +14,98 @@ SEED="${VERIF_SEED:-0}"
 SCALE="${DLTVERIF_FUZZ_SCALE:-1}"
 HARNESS="${DLTVERIF_HARNESS_DIR:-$ROOT/harness}"; FUZZ="${DLTVERIF_FUZZ_DIR:-$ROOT/fuzz}"; OUT="${DLTVERIF_OUT:-$ROOT}"
 BIN="$HARNESS/target/release/dltverif"
+# target:runs-per-process:max_len:extra libFuzzer flags
 case "$PROP" in
-  C02|C03|C04|C16) TARGET=bytes; RUNS=$((1500000*SCALE)); MAXLEN=4096; EXTRA="";;
-  C12) TARGET=fibex; RUNS=$((150000*SCALE)); MAXLEN=8192; EXTRA="-timeout=5";;
-  C13) TARGET=args; RUNS=$((2000000*SCALE)); MAXLEN=256; EXTRA="";;
+  C02) PLAN="bytes:1500000:4096: strat:150000:2048:";;
+  C03|C04|C16) PLAN="bytes:1500000:4096:";;
+  C12) PLAN="fibex:150000:8192:-timeout=5";;
+  C13) PLAN="args:2000000:256:";;
+  C01|C05|C06|C15) PLAN="strat:150000:2048:";;
+  C07|C08|C10) PLAN="strat:60000:2048:";;
+  C09) PLAN="strat:500000:1024:";;
+  C17|C18|C19) PLAN="strat:2000000:512:";;
   *) exit 0;;   # no coverage-guided tier for this property
 esac
 export CARGO_NET_OFFLINE=true
 WORK="$ROOT/work/fuzz-$PROP-$$"
 mkdir -p "$WORK"
-cleanup() { rm -rf "$WORK"; rm -f /dev/shm/dltverif-fuzz-*.xml 2>/dev/null; }
-trap cleanup EXIT
-if ! cargo +nightly fuzz build --fuzz-dir "$FUZZ" "$TARGET" >"$WORK/build.log" 2>&1; then
-  echo "INCONCLUSIVE property=$PROP the libFuzzer target does not build (cargo +nightly fuzz build); see below" >&2
-  tail -n 30 "$WORK/build.log" >&2
-  exit 2
-fi
-EXE="$FUZZ/target/x86_64-unknown-linux-gnu/release/$TARGET"
-[ -x "$EXE" ] || { echo "INCONCLUSIVE property=$PROP fuzz binary missing" >&2; exit 2; }
-"$BIN" gen-corpus "$TARGET" "$WORK/seedcorpus" >/dev/null || { echo "INCONCLUSIVE property=$PROP corpus generation failed" >&2; exit 2; }
-START=$(date +%s)
-PIDS=()
-launch() { # index corpus-kind runs max_len
-  local k=$1 kind=$2 runs=$3 maxlen=$4
-  local d="$WORK/p$k"; mkdir -p "$d/corpus" "$d/artifacts"
-  [ "$kind" = "seeded" ] && cp "$WORK/seedcorpus"/* "$d/corpus/" 2>/dev/null
-  ( cd "$d" && DLTVERIF_ORACLE="$PROP" "$EXE" "$d/corpus" -runs="$runs" -seed=$((SEED*1000+k+1)) -len_control=0 -max_len="$maxlen" \
-      -artifact_prefix="$d/artifacts/" -print_final_stats=1 $EXTRA >"$d/log" 2>&1 ) &
-  PIDS+=($!)
+ALLPIDS=()
+cleanup() {
+  rm -rf "$WORK"
+  for p in "${ALLPIDS[@]:-}"; do [ -n "$p" ] && rm -rf /dev/shm/dltverif-fuzz-"$p".xml /dev/shm/dltverif-"$p"-* 2>/dev/null; done
 }
-N=0
-for k in $(seq 0 11); do launch $N seeded "$RUNS" "$MAXLEN"; N=$((N+1)); done
-for k in $(seq 0 3); do launch $N empty "$RUNS" "$MAXLEN"; N=$((N+1)); done
-for p in "${PIDS[@]}"; do wait "$p"; done
-if [ "$PROP" = "C03" ]; then
-  # second pass for the > 64 KiB clause
-  PIDS=()
-  for k in $(seq 0 7); do launch $N seeded $((40000*SCALE)) 70000; N=$((N+1)); done
-  for p in "${PIDS[@]}"; do wait "$p"; done
-fi
-ELAPSED=$(( $(date +%s) - START ))
-EXECS=0; for f in "$WORK"/p*/log; do e=$(grep -o 'stat::number_of_executed_units: [0-9]*' "$f" | grep -o '[0-9]*$' | tail -1); EXECS=$((EXECS + ${e:-0})); done
-CORPUS=$(cat "$WORK"/p*/corpus/* 2>/dev/null | wc -c)
-NCORP=$(ls "$WORK"/p*/corpus 2>/dev/null | wc -l)
-RC=0; ARTIFACTS=0; CONFIRMED=0; UNCONFIRMED=0
-for a in "$WORK"/p*/artifacts/*; do
-  [ -f "$a" ] || continue
-  ARTIFACTS=$((ARTIFACTS+1))
-  case "$(basename "$a")" in
-    oom-*|leak-*) echo "INCONCLUSIVE property=$PROP libFuzzer reported $(basename "$a") (memory limit); not a verdict about the property" >&2; mkdir -p "$OUT/replays"; cp "$a" "$OUT/replays/$PROP-fuzz-$(basename "$a")"; [ $RC -eq 0 ] && RC=2; continue;;
-  esac
-  OUT=$("$BIN" fuzz-triage "$PROP" "$TARGET" "$a"); T=$?
-  echo "$OUT"
-  if [ $T -eq 1 ]; then CONFIRMED=$((CONFIRMED+1)); RC=1
-  elif [ $T -eq 3 ]; then
-    UNCONFIRMED=$((UNCONFIRMED+1))
-    case "$(basename "$a")" in
-      crash-*) # crashed under libFuzzer/ASan but the in-process oracle accepts it: keep the raw input, report for C03 only
-        if [ "$PROP" = "C03" ]; then mkdir -p "$OUT/replays"; cp "$a" "$OUT/replays/C03-fuzz-asan-$(basename "$a")"; tail -n 25 "$(dirname "$a")/../log" >&2
-          echo "VIOLATION property=C03 replay=$OUT/replays/C03-fuzz-asan-$(basename "$a")"; echo "  sanitizer-only failure of the fuzz target (see the log above); replay with: $EXE <file>"; RC=1; fi;;
-    esac
+trap cleanup EXIT
+RC=0; FUZZJSON=""
+for ENTRY in $PLAN; do
+  IFS=: read -r TARGET RUNS MAXLEN EXTRA <<<"$ENTRY"
+  RUNS=$((RUNS*SCALE))
+  if ! cargo +nightly fuzz build --fuzz-dir "$FUZZ" "$TARGET" >"$WORK/build.log" 2>&1; then
+    echo "INCONCLUSIVE property=$PROP the libFuzzer target $TARGET does not build (cargo +nightly fuzz build); see below" >&2
+    tail -n 30 "$WORK/build.log" >&2
+    exit 2
   fi
-done
-python3 - "$OUT/evidence/$PROP.json" <<PY
+  EXE="$FUZZ/target/x86_64-unknown-linux-gnu/release/$TARGET"
+  [ -x "$EXE" ] || { echo "INCONCLUSIVE property=$PROP fuzz binary missing" >&2; exit 2; }
+  rm -rf "$WORK/seedcorpus"
+  "$BIN" gen-corpus "$TARGET" "$WORK/seedcorpus" >/dev/null || { echo "INCONCLUSIVE property=$PROP corpus generation failed" >&2; exit 2; }
+  START=$(date +%s)
+  PIDS=()
+  launch() { # index corpus-kind runs max_len
+    local k=$1 kind=$2 runs=$3 maxlen=$4
+    local d="$WORK/$TARGET-p$k"; mkdir -p "$d/corpus" "$d/artifacts"
+    [ "$kind" = "seeded" ] && cp "$WORK/seedcorpus"/* "$d/corpus/" 2>/dev/null
+    ( cd "$d" && DLTVERIF_ORACLE="$PROP" exec "$EXE" "$d/corpus" -runs="$runs" -seed=$((SEED*1000+k+1)) -len_control=0 -max_len="$maxlen" \
+        -rss_limit_mb=4096 -artifact_prefix="$d/artifacts/" -print_final_stats=1 $EXTRA >"$d/log" 2>&1 ) &
+    PIDS+=($!); ALLPIDS+=($!)
+  }
+  N=0
+  for k in $(seq 0 11); do launch $N seeded "$RUNS" "$MAXLEN"; N=$((N+1)); done
+  for k in $(seq 0 3); do launch $N empty "$RUNS" "$MAXLEN"; N=$((N+1)); done
+  for p in "${PIDS[@]}"; do wait "$p"; done
+  if [ "$PROP" = "C03" ] && [ "$TARGET" = "bytes" ]; then
+    # second pass for the > 64 KiB clause
+    PIDS=()
+    for k in $(seq 0 7); do launch $N seeded $((40000*SCALE)) 70000; N=$((N+1)); done
+    for p in "${PIDS[@]}"; do wait "$p"; done
+  fi
+  ELAPSED=$(( $(date +%s) - START ))
+  EXECS=0; for f in "$WORK/$TARGET"-p*/log; do e=$(grep -o 'stat::number_of_executed_units: [0-9]*' "$f" | grep -o '[0-9]*$' | tail -1); EXECS=$((EXECS + ${e:-0})); done
+  CORPUS=$(cat "$WORK/$TARGET"-p*/corpus/* 2>/dev/null | wc -c)
+  NCORP=$(ls "$WORK/$TARGET"-p*/corpus 2>/dev/null | wc -l)
+  ARTIFACTS=0; CONFIRMED=0; UNCONFIRMED=0
+  for a in "$WORK/$TARGET"-p*/artifacts/*; do
+    [ -f "$a" ] || continue
+    ARTIFACTS=$((ARTIFACTS+1))
+    case "$(basename "$a")" in
+      oom-*|leak-*) echo "INCONCLUSIVE property=$PROP libFuzzer reported $(basename "$a") (memory limit); not a verdict about the property" >&2; mkdir -p "$OUT/replays"; cp "$a" "$OUT/replays/$PROP-fuzz-$(basename "$a")"; [ $RC -eq 0 ] && RC=2; continue;;
+    esac
+    TOUT=$("$BIN" fuzz-triage "$PROP" "$TARGET" "$a"); T=$?
+    echo "$TOUT"
+    if [ $T -eq 1 ]; then CONFIRMED=$((CONFIRMED+1)); RC=1
+    elif [ $T -eq 3 ]; then
+      UNCONFIRMED=$((UNCONFIRMED+1))
+      case "$(basename "$a")" in
+        crash-*) # crashed under libFuzzer/ASan but the in-process oracle accepts it: keep the raw input, report for C03 only
+          if [ "$PROP" = "C03" ]; then mkdir -p "$OUT/replays"; cp "$a" "$OUT/replays/C03-fuzz-asan-$(basename "$a")"; tail -n 25 "$(dirname "$a")/../log" >&2
+            echo "VIOLATION property=C03 replay=$OUT/replays/C03-fuzz-asan-$(basename "$a")"; echo "  sanitizer-only failure of the fuzz target (see the log above); replay with: $EXE <file>"; RC=1; fi;;
+      esac
+    fi
+  done
+  python3 - "$OUT/evidence/$PROP.json" <<PY
 import json, sys
 p = sys.argv[1]
 try:
     e = json.load(open(p))
 except Exception:
     sys.exit(0)
-e["coverage"]["fuzz"] = {"engine": "libFuzzer (cargo-fuzz, AddressSanitizer, debug assertions)", "target": "$TARGET", "oracle_in_target": "$PROP",
+e["coverage"].setdefault("fuzz", {})["$TARGET"] = {"engine": "libFuzzer (cargo-fuzz, AddressSanitizer, debug assertions)", "oracle_in_target": "$PROP",
+  "input_decoding": "hand-written data provider -> the property's Case (harness/src/props/structured.rs)" if "$TARGET" == "strat" else "byte-level (mode byte + buffer / document / signal list + payload)",
   "processes": $N, "runs_per_process": $RUNS, "executions": $EXECS, "seed_corpus": "12 processes from a generated corpus, 4 from an empty corpus",
   "final_corpus_files": $NCORP, "final_corpus_bytes": $CORPUS, "artifacts": $ARTIFACTS, "confirmed_violations": $CONFIRMED, "candidates_not_confirmed": $UNCONFIRMED, "wall_s": $ELAPSED}
 e["wall_s"] = round(e.get("wall_s", 0) + $ELAPSED, 3)
 if $CONFIRMED: e["violations"] = e.get("violations", 0) + $CONFIRMED
 json.dump(e, open(p, "w"), indent=1)
 PY
-echo "FUZZ property=$PROP target=$TARGET processes=$N executions=$EXECS artifacts=$ARTIFACTS confirmed=$CONFIRMED wall_s=$ELAPSED"
+  echo "FUZZ property=$PROP target=$TARGET processes=$N executions=$EXECS artifacts=$ARTIFACTS confirmed=$CONFIRMED wall_s=$ELAPSED"
+done
 exit $RC
